@@ -934,11 +934,6 @@ func removeJobFromWaitList(waitList []*PipelineJob, jobToRemove *PipelineJob) []
 
 // determineIfJobShouldBeRemoved implements the retention period handling.
 func (r *PipelineRunner) determineIfJobShouldBeRemoved(index int, job *PipelineJob) (bool, string) {
-	pipelineDef, pipelineDefExists := r.defs.Pipelines[job.Pipeline]
-	if !pipelineDefExists {
-		return true, "Pipeline definition not found"
-	}
-
 	if job.Start == nil && !job.Canceled {
 		// always keep jobs on wait list
 		return false, "Keeping job on wait list"
@@ -947,6 +942,14 @@ func (r *PipelineRunner) determineIfJobShouldBeRemoved(index int, job *PipelineJ
 	if !job.Completed && !job.Canceled {
 		// always keep jobs which are not yet in some "finished" state
 		return false, "Keeping non-finished job"
+	}
+
+	// Jobs of pipelines that are no longer defined are removed, but only once they are finished: a job that is still
+	// running (or waiting) must stay known to the runner, otherwise it would no longer count against the concurrency
+	// limit if the pipeline is defined again, and its wait list entry would refer to a job nobody can see or cancel.
+	pipelineDef, pipelineDefExists := r.defs.Pipelines[job.Pipeline]
+	if !pipelineDefExists {
+		return true, "Pipeline definition not found"
 	}
 
 	if pipelineDef.RetentionPeriod > 0 && time.Since(job.Created) > pipelineDef.RetentionPeriod {
